@@ -45,12 +45,45 @@ func init() {
 	ex.Register(&ex.Extractor{Name: "Bn256Code", Run: run})
 }
 
-var srcFiles = []string{"gfp2.go", "gfp6.go", "gfp12.go", "curve.go", "twist.go", "optate.go", "constants.go"}
+var srcFiles = []string{"gfp2.go", "gfp6.go", "gfp12.go", "curve.go", "twist.go", "optate.go", "constants.go", "point.go", "gfp.go"}
 
-// functions of the package that are NOT translated (no field arithmetic)
-var skip = map[string]bool{
-	"gfP2.String": true, "gfP6.String": true, "gfP12.String": true, "curvePoint.String": true, "twistPoint.String": true,
-	"gfP2Decode": true, "bigFromBase10": true,
+// functions of the package that are NOT translated, with the reason (emitted as the table `skipped`)
+var skip = map[string]string{
+	"gfP2.String": "formatting", "gfP6.String": "formatting", "gfP12.String": "formatting", "curvePoint.String": "formatting",
+	"twistPoint.String": "formatting", "gfP2Decode": "formatting", "bigFromBase10": "constant parsing (E1)",
+	// gfp.go: byte-level codec of a field element (property C11, Model/Codec*.lean)
+	"gfP.String": "formatting", "gfP.Marshal": "codec (C11)", "gfP.Unmarshal": "codec (C11)", "gfP.isCanonical": "codec (C11)",
+	// point.go: marshalling and everything defined through it (property C11), sizes, formatting
+	"pointG1.Equal": "through MarshalBinary (C11)", "pointG1.Clone": "through MarshalBinary/UnmarshalBinary (C11)",
+	"pointG1.MarshalBinary": "codec (C11)", "pointG1.MarshalTo": "codec (C11)", "pointG1.UnmarshalBinary": "codec (C11)",
+	"pointG1.UnmarshalFrom": "codec (C11)", "pointG1.MarshalSize": "size", "pointG1.ElementSize": "size", "pointG1.String": "formatting",
+	"pointG2.Equal": "through MarshalBinary (C11)", "pointG2.Clone": "through MarshalBinary/UnmarshalBinary (C11)",
+	"pointG2.MarshalBinary": "codec (C11)", "pointG2.MarshalTo": "codec (C11)", "pointG2.UnmarshalBinary": "codec (C11)",
+	"pointG2.UnmarshalFrom": "codec (C11)", "pointG2.MarshalSize": "size", "pointG2.ElementSize": "size", "pointG2.String": "formatting",
+	"pointGT.Equal": "through MarshalBinary (C11)", "pointGT.Clone": "through MarshalBinary/UnmarshalBinary (C11)",
+	"pointGT.MarshalBinary": "codec (C11)", "pointGT.MarshalTo": "codec (C11)", "pointGT.UnmarshalBinary": "codec (C11)",
+	"pointGT.UnmarshalFrom": "codec (C11)", "pointGT.MarshalSize": "size", "pointGT.ElementSize": "size", "pointGT.String": "formatting",
+}
+
+// panicOnly: functions whose whole body is `panic("…unsupported operation")` are recorded, not translated
+func panicOnly(fd *ast.FuncDecl) bool {
+	if len(fd.Body.List) == 0 {
+		return false
+	}
+	for _, st := range fd.Body.List {
+		es, ok := st.(*ast.ExprStmt)
+		if !ok {
+			return false
+		}
+		c, ok := es.X.(*ast.CallExpr)
+		if !ok {
+			return false
+		}
+		if id, ok := c.Fun.(*ast.Ident); !ok || id.Name != "panic" {
+			return false
+		}
+	}
+	return true
 }
 
 type gp struct{ param, expr, leanTyp, goTyp string }
@@ -68,12 +101,25 @@ var globalParams = map[string]gp{
 	"Order":                    {"order", "order", "Nat", "nat"},
 	"curveB":                   {"curveB", "curveB", "α", "gfP"},
 	"twistB":                   {"twistB", "twistB", "Fp2 α", "gfP2"},
+	"curveGen":                 {"curveGen", "curveGen", "Jac α", "curvePoint"},
+	"twistGen":                 {"twistGen", "twistGen", "Jac (Fp2 α)", "twistPoint"},
+	"gfP12Gen":                 {"gfP12Gen", "gfP12Gen", "Fp12 α", "gfP12"},
+	"gfP12Inf":                 {"gfP12Inf", "gfP12Inf", "Fp12 α", "gfP12"},
+	"r2":                       {"r2", "r2", "α", "gfP"},
+	"r3":                       {"r3", "r3", "α", "gfP"},
+	"rN1":                      {"rN1", "rN1", "α", "gfP"},
 }
-var gparamOrder = []struct{ name, typ string }{{"cs", "FrobConsts α"}, {"u", "Nat"}, {"order", "Nat"}, {"curveB", "α"}, {"twistB", "Fp2 α"}}
+var gparamOrder = []struct{ name, typ string }{{"cs", "FrobConsts α"}, {"u", "Nat"}, {"order", "Nat"}, {"curveB", "α"}, {"twistB", "Fp2 α"},
+	{"curveGen", "Jac α"}, {"twistGen", "Jac (Fp2 α)"}, {"gfP12Gen", "Fp12 α"}, {"gfP12Inf", "Fp12 α"}, {"r2", "α"}, {"r3", "α"}, {"rN1", "α"}}
 
-var classOrder = []string{"Add", "Sub", "Neg", "Mul", "Zero", "One", "Inv", "DecidableEq"}
+var classOrder = []string{"Add", "Sub", "Neg", "Mul", "Zero", "One", "Inv", "DecidableEq", "RawLimbs"}
 
-type param struct{ name, lean, typ, kind string }
+// param.kind: ptr (typ = pointee type, possibly a wrapper pointGx) | nat (*big.Int, kyber.Scalar = the big.Int V of its
+// *mod.Int, cipher.Stream = the scalar mod.NewInt64(0, Order).Pick draws from it) | sint (int64) | list ([]kyber.Point)
+type param struct {
+	name, lean, typ, kind string
+	nilable               bool // the code compares this pointer parameter with nil: translated once per case
+}
 
 type compInfo struct {
 	typ  string
@@ -87,20 +133,21 @@ type retInfo struct {
 }
 
 type summary struct {
-	key     string
-	lean    string
-	pos     string
-	sig     string
-	params  []param
-	classOf []int
-	used    []bool
-	outs    []int
-	rets    []retInfo
-	comps   []compInfo
-	body    *prog
-	gparams map[string]bool
-	classes map[string]bool
-	sameAs  *summary
+	key      string
+	lean     string
+	pos      string
+	sig      string
+	params   []param
+	classOf  []int
+	used     []bool
+	outs     []int
+	rets     []retInfo
+	comps    []compInfo
+	body     *prog
+	gparams  map[string]bool
+	classes  map[string]bool
+	sameAs   *summary
+	canPanic bool
 }
 
 func (s *summary) gparamList() []string {
@@ -122,6 +169,8 @@ type translator struct {
 	sums    map[string]*summary
 	busy    map[string]bool
 	order   []*summary
+
+	panicOnly []string
 }
 
 func recvType(fd *ast.FuncDecl) string {
@@ -159,24 +208,88 @@ func (t *translator) paramsOf(key string) []param {
 			return
 		}
 		for _, fld := range fl.List {
-			typ := typeName(fld.Type)
-			_, isPtr := fld.Type.(*ast.StarExpr)
-			kind := "ptr"
-			switch {
-			case isPtr && typ == "big.Int":
-				kind, typ = "nat", "nat"
-			case isPtr && (typ == "gfP" || isStruct(typ)):
-			default:
-				panic(xerr{fmt.Sprintf("%s: %s: unsupported parameter type", t.fset.Position(fld.Pos()), key)})
-			}
 			for _, n := range fld.Names {
-				ps = append(ps, param{name: n.Name, lean: leanIdent(n.Name), typ: typ, kind: kind})
+				typ := typeName(fld.Type)
+				_, isPtr := fld.Type.(*ast.StarExpr)
+				kind := "ptr"
+				switch {
+				case isPtr && typ == "big.Int":
+					kind, typ = "nat", "nat"
+				case isPtr && (typ == "gfP" || isStruct(typ) || isWrapper(typ)):
+				case typ == "kyber.Point", typ == "[]kyber.Point":
+					// the dynamic type is the one the body asserts (`a.(*pointG1)`)
+					if typ == "[]kyber.Point" {
+						kind = "list"
+					}
+					typ = assertedType(fd, n.Name)
+					if typ == "" && isWrapper(recvType(fd)) {
+						// no assertion in this body (pointG1.Sub hands a, b on to Add / Neg, which assert): the
+						// receiver's own point type; the calls in the body are checked against the callees' types
+						typ = recvType(fd)
+					}
+					if !isWrapper(typ) {
+						panic(xerr{fmt.Sprintf("%s: %s: parameter %s is a kyber.Point the body never asserts to a point type",
+							t.fset.Position(fld.Pos()), key, n.Name)})
+					}
+				case typ == "kyber.Scalar", typ == "cipher.Stream":
+					kind, typ = "nat", "nat"
+				case typ == "int64":
+					kind, typ = "sint", "int"
+				default:
+					panic(xerr{fmt.Sprintf("%s: %s: unsupported parameter type", t.fset.Position(fld.Pos()), key)})
+				}
+				ps = append(ps, param{name: n.Name, lean: leanIdent(n.Name), typ: typ, kind: kind,
+					nilable: kind == "ptr" && comparedWithNil(fd, n.Name)})
 			}
 		}
 	}
 	add(fd.Recv)
 	add(fd.Type.Params)
 	return ps
+}
+
+// assertedType: T if the body contains `name.(*T)` or `name[i].(*T)`
+func assertedType(fd *ast.FuncDecl, name string) string {
+	res := ""
+	ast.Inspect(fd.Body, func(n ast.Node) bool {
+		ta, ok := n.(*ast.TypeAssertExpr)
+		if !ok || ta.Type == nil {
+			return true
+		}
+		x := unparen(ta.X)
+		if ix, ok := x.(*ast.IndexExpr); ok {
+			x = unparen(ix.X)
+		}
+		if id, ok := x.(*ast.Ident); ok && id.Name == name {
+			if _, isPtr := ta.Type.(*ast.StarExpr); isPtr {
+				tn := typeName(ta.Type)
+				if res != "" && res != tn {
+					res = "?"
+				} else if res == "" {
+					res = tn
+				}
+			}
+		}
+		return true
+	})
+	return res
+}
+
+func comparedWithNil(fd *ast.FuncDecl, name string) bool {
+	found := false
+	ast.Inspect(fd.Body, func(n ast.Node) bool {
+		be, ok := n.(*ast.BinaryExpr)
+		if !ok || (be.Op != token.EQL && be.Op != token.NEQ) {
+			return true
+		}
+		x, okx := unparen(be.X).(*ast.Ident)
+		y, oky := unparen(be.Y).(*ast.Ident)
+		if okx && oky && ((x.Name == name && y.Name == "nil") || (y.Name == name && x.Name == "nil")) {
+			found = true
+		}
+		return true
+	})
+	return found
 }
 
 func identity(n int) []int {
@@ -211,7 +324,7 @@ func (t *translator) summary(key string, classOf []int) *summary {
 		if t.cmpText(s, nil) == t.cmpText(base, classOf) {
 			s.sameAs = base
 		} else {
-			s.lean = base.lean + "_alias_" + strings.ReplaceAll(aliasPattern(s.params, classOf), "=", "_")
+			s.lean = base.lean + variantSuffix(s.params, classOf)
 			t.order = append(t.order, s)
 		}
 	} else {
@@ -219,6 +332,27 @@ func (t *translator) summary(key string, classOf []int) *summary {
 	}
 	t.sums[ck] = s
 	delete(t.busy, ck)
+	return s
+}
+
+func nilPattern(ps []param, classOf []int) string {
+	var ns []string
+	for i := range ps {
+		if classOf[i] < 0 {
+			ns = append(ns, ps[i].lean)
+		}
+	}
+	return strings.Join(ns, "_")
+}
+
+func variantSuffix(ps []param, classOf []int) string {
+	s := ""
+	if n := nilPattern(ps, classOf); n != "" {
+		s += "_nil_" + n
+	}
+	if a := aliasPattern(ps, classOf); a != "" {
+		s += "_alias_" + strings.ReplaceAll(a, "=", "_")
+	}
 	return s
 }
 
@@ -246,8 +380,11 @@ func aliasPattern(ps []param, classOf []int) string {
 func (t *translator) cmpText(s *summary, classOf []int) string {
 	p := &printer{rename: map[string]string{}, canon: map[string]string{}, glob: globExpr}
 	rep := func(i int) string {
-		if classOf != nil {
+		if classOf != nil && classOf[i] >= 0 {
 			return s.params[classOf[i]].lean
+		}
+		if classOf != nil {
+			return "nil"
 		}
 		return s.params[i].lean
 	}
@@ -286,13 +423,25 @@ func (t *translator) evalFunc(key string, classOf []int) *summary {
 		globObj: map[string]int{}, ctr: map[string]int{}}
 	root := &prog{}
 	st := &state{objs: map[int]*V{}, written: map[int]bool{}, touched: map[int]bool{}, env: map[string]bind{}, cur: root}
+	st.elems = map[string]int{}
 	for i, p := range params {
-		if p.kind == "nat" {
+		switch p.kind {
+		case "nat":
 			st.env[p.name] = bind{kind: "nat", e: eParam(p.lean, "nat")}
+			continue
+		case "sint":
+			st.env[p.name] = bind{kind: "sint", e: eParam(p.lean, "int")}
+			continue
+		case "list":
+			st.env[p.name] = bind{kind: "list", e: eParam(p.lean, "list"), p: ptr{typ: p.typ}}
+			continue
+		}
+		if classOf[i] < 0 {
+			st.env[p.name] = bind{kind: "ptr", p: ptr{null: true}}
 			continue
 		}
 		if classOf[i] == i {
-			f.paramObj[i] = f.alloc(st, p.typ, p.lean, "param", atomV(eParam(p.lean, p.typ)))
+			f.paramObj[i] = f.alloc(st, under(p.typ), p.lean, "param", atomV(eParam(p.lean, under(p.typ))))
 			f.objRep[f.paramObj[i]] = i
 		} else {
 			if params[classOf[i]].typ != p.typ {
@@ -315,7 +464,7 @@ func (t *translator) evalFunc(key string, classOf []int) *summary {
 	}
 	f.run(st, fd.Body.List, func(s2 *state) { f.finish(s2, fd, nil) })
 
-	s := &summary{key: key, lean: leanFuncName(key), params: params, classOf: classOf, body: root,
+	s := &summary{key: key, lean: leanFuncName(key), params: params, classOf: classOf, body: root, canPanic: f.canPanic,
 		used: make([]bool, len(params)), gparams: map[string]bool{}, classes: map[string]bool{},
 		pos: fmt.Sprintf("%s:%d", filepath.Base(t.fset.Position(fd.Pos()).Filename), t.fset.Position(fd.Pos()).Line),
 		sig: t.signature(fd)}
@@ -411,6 +560,8 @@ func (t *translator) evalFunc(key string, classOf []int) *summary {
 			s.classes["One"] = true
 		case "deceq":
 			s.classes["DecidableEq"] = true
+		case "rawlit", "ofwords", "word":
+			s.classes["RawLimbs"] = true
 		case "app":
 			switch e.Name {
 			case "add":
@@ -487,12 +638,25 @@ func (s *summary) resultType() string {
 	for _, c := range s.comps {
 		ts = append(ts, leanType(c.typ))
 	}
+	if s.canPanic {
+		return "Option (" + strings.Join(ts, " × ") + ")"
+	}
 	return strings.Join(ts, " × ")
 }
 
+func paramLeanType(pa param) string {
+	if pa.kind == "list" {
+		return "List (" + leanType(pa.typ) + ")"
+	}
+	return leanType(pa.typ)
+}
+
 func (t *translator) printDef(s *summary, sb *strings.Builder) {
-	p := &printer{glob: globExpr}
+	p := &printer{glob: globExpr, opt: s.canPanic}
 	doc := fmt.Sprintf("%s `%s`", s.pos, s.sig)
+	if pat := nilPattern(s.params, s.classOf); pat != "" {
+		doc += " evaluated with " + pat + " = nil"
+	}
 	if pat := aliasPattern(s.params, s.classOf); pat != "" {
 		doc += " evaluated with aliased pointers " + pat
 	}
@@ -505,6 +669,9 @@ func (t *translator) printDef(s *summary, sb *strings.Builder) {
 		}
 	}
 	doc += "; value: " + strings.Join(outs, ", ")
+	if s.canPanic {
+		doc += " (none: the Go code panics)"
+	}
 	fmt.Fprintf(sb, "/-- %s -/\ndef %s {α : Type}", doc, s.lean)
 	for _, c := range classOrder {
 		if s.classes[c] {
@@ -518,7 +685,7 @@ func (t *translator) printDef(s *summary, sb *strings.Builder) {
 	}
 	for i, pa := range s.params {
 		if s.used[i] {
-			fmt.Fprintf(sb, " (%s : %s)", pa.lean, leanType(pa.typ))
+			fmt.Fprintf(sb, " (%s : %s)", pa.lean, paramLeanType(pa))
 		}
 	}
 	fmt.Fprintf(sb, " : %s :=\n", s.resultType())
@@ -565,10 +732,13 @@ func (t *translator) load(repo string) error {
 				}
 				key := x.Name.Name
 				if r := recvType(x); r != "" {
-					if r == "gfP" {
-						continue // base field: the primitives of the translation
-					}
+					// gfP.Set / gfP.Invert ARE translated (gfp.go), but a call of them from other code stays a
+					// primitive of the translation (copy / ⁻¹): see evalCall
 					key = r + "." + key
+				}
+				if panicOnly(x) {
+					t.panicOnly = append(t.panicOnly, key)
+					continue
 				}
 				t.funcs[key] = x
 				t.keys = append(t.keys, key)
@@ -603,6 +773,11 @@ func (t *translator) load(repo string) error {
 		got := structs[name]
 		if fmt.Sprint(got) != fmt.Sprint(want) {
 			return fmt.Errorf("struct %s is declared as %v, the translator expects %v", name, got, want)
+		}
+	}
+	for name, u := range wrappers {
+		if got, want := fmt.Sprint(structs[name]), fmt.Sprint([]fieldInfo{{"g", u}}); got != want {
+			return fmt.Errorf("struct %s is declared as %v, the translator expects {g *%s}", name, got, u)
 		}
 	}
 	return nil
@@ -673,13 +848,22 @@ func run(repo string) (lean string, err error) {
 	}
 	var rows []row
 	var roots []string
+	var skipped []string
 	for _, key := range t.keys {
-		if skip[key] {
+		if _, ok := skip[key]; ok {
+			skipped = append(skipped, key)
 			continue
 		}
 		roots = append(roots, key)
 		ps := t.paramsOf(key)
 		t.summary(key, identity(len(ps)))
+		for i, p := range ps { // the case "this pointer parameter is nil"
+			if p.nilable {
+				c := identity(len(ps))
+				c[i] = -1
+				t.summary(key, c)
+			}
+		}
 	}
 	// alias safety of every translated function under every identification of same-typed pointers
 	for _, key := range roots {
@@ -690,9 +874,10 @@ func run(repo string) (lean string, err error) {
 		}
 	}
 	var sb strings.Builder
-	sb.WriteString(ex.Header("Bn256Code", "group/bn256/{gfp2,gfp6,gfp12,curve,twist,optate}.go"))
+	sb.WriteString(ex.Header("Bn256Code", "group/bn256/{gfp2,gfp6,gfp12,curve,twist,optate,point,gfp}.go"))
 	sb.WriteString(`import DosModel.Model.Bn256Curve
 import DosModel.Model.Bn256TFrob
+import DosModel.Model.Bn256Raw
 set_option linter.unusedVariables false
 /-! Every definition below is the symbolic evaluation of one Go function of group/bn256
 (go/extract/bn256code): one ` + "`let`" + ` per field operation / call, in the order the code performs them.
@@ -708,10 +893,26 @@ open Dos.Bn256
 	var items []string
 	for _, s := range t.order {
 		if aliasPattern(s.params, s.classOf) == "" {
-			items = append(items, fmt.Sprintf("  (%s, %s, %s)", ex.LeanStr(s.key), ex.LeanStr(s.pos), ex.LeanStr(s.lean)))
+			name := s.key
+			if n := nilPattern(s.params, s.classOf); n != "" {
+				name += "[" + n + "=nil]"
+			}
+			items = append(items, fmt.Sprintf("  (%s, %s, %s)", ex.LeanStr(name), ex.LeanStr(s.pos), ex.LeanStr(s.lean)))
 		}
 	}
 	sb.WriteString(strings.Join(items, ",\n") + "]\n\n")
+	sb.WriteString("/-- functions with a body in the translated files that are NOT translated: (Go name, reason) -/\ndef skipped : List (String × String) := [\n")
+	items = nil
+	for _, k := range skipped {
+		items = append(items, fmt.Sprintf("  (%s, %s)", ex.LeanStr(k), ex.LeanStr(skip[k])))
+	}
+	sb.WriteString(strings.Join(items, ",\n") + "]\n\n")
+	sb.WriteString("/-- functions whose whole body is `panic(…)` (unsupported kyber operations) -/\ndef panicOnly : List String := [")
+	items = nil
+	for _, k := range t.panicOnly {
+		items = append(items, ex.LeanStr(k))
+	}
+	sb.WriteString(strings.Join(items, ", ") + "]\n\n")
 	sb.WriteString("/-- alias patterns examined: (Go function, identified pointer parameters, translation under that\naliasing is textually the no-alias translation with the parameters identified) -/\ndef aliasTable : List (String × String × Bool) := [\n")
 	items = nil
 	for _, r := range rows {
